@@ -149,15 +149,19 @@ pub fn lib_case(c: &Case, ctx: &serde_json::Value, rep: &mut Report, valid_bs: b
 fn lib_one(seed: u64, idx: u64, thorough: bool, rep: &mut Report) {
     let mut rng = Rng::derive(seed, 1, idx);
     rep.evaluations += 1;
-    let odd = rng.chance(1, 6);
-    let bs = if odd {
+    let odd = crate::util::tiny() || rng.chance(1, 6);
+    let bs = if crate::util::tiny() {
+        *rng.pick(&[1usize, 3, 4, 8, 16, 32])
+    } else if odd {
         *rng.pick(&[1usize, 2, 3, 7, 100, 511, 513, 1000, 4097, 65535, 65537, 0])
     } else {
         *rng.pick(&CLI_BS)
     };
     let bs = if bs == 0 { rng.range(1, 70000) } else { bs };
-    let big = rng.chance(1, if thorough { 10 } else { 25 });
-    let max_total = if big { 2 * 1024 * 1024 } else if bs >= 16384 { 6 * bs } else { 64 * 1024 };
+    let big = !crate::util::tiny() && rng.chance(1, if thorough { 10 } else { 25 });
+    let max_total = if crate::util::tiny() {
+        160
+    } else if big { 2 * 1024 * 1024 } else if bs >= 16384 { 6 * bs } else { 64 * 1024 };
     let mut c = gen_case(&mut rng, bs, max_total);
     if big && c.basis.len() <= 64 * 1024 && !c.basis.is_empty() {
         // force the rayon path
@@ -186,9 +190,22 @@ pub struct Run {
     pub stdout: String,
     pub stderr: String,
 }
+pub fn valgrind() -> bool {
+    std::env::var("VH_VALGRIND").map(|v| v == "1").unwrap_or(false)
+}
+/// copia, or copia under valgrind memcheck (exit status 97 = memcheck reported an error).
+pub fn copia_command() -> Command {
+    if valgrind() {
+        let mut c = Command::new("valgrind");
+        c.args(["-q", "--error-exitcode=97", "--errors-for-leak-kinds=none", "--leak-check=no", "--trace-children=no"]).arg(copia_bin());
+        c
+    } else {
+        Command::new(copia_bin())
+    }
+}
 pub fn run_copia(args: &[&str], cwd: &Path) -> Run {
     use std::os::unix::process::ExitStatusExt;
-    let o = Command::new(copia_bin()).args(args).current_dir(cwd).env("RUST_LOG", "off").output().expect("spawn copia");
+    let o = copia_command().args(args).current_dir(cwd).env("RUST_LOG", "off").output().expect("spawn copia");
     Run { code: o.status.code(), signal: o.status.signal(), stdout: String::from_utf8_lossy(&o.stdout).into(), stderr: String::from_utf8_lossy(&o.stderr).into() }
 }
 
@@ -205,6 +222,7 @@ fn cli_one(seed: u64, idx: u64, work: &Path, rep: &mut Report) {
     std::fs::write(dir.join("source"), &c.source).unwrap();
     let bss = bs.to_string();
     let fail = |rep: &mut Report, what: &str, r: &Run, ctx: &serde_json::Value| {
+        let what = if r.code == Some(97) && valgrind() { "valgrind-memcheck-error" } else { what };
         rep.violation(&format!("C01|cli|{what}"), json!({"ctx": ctx, "code": r.code, "signal": r.signal, "stderr": r.stderr.chars().take(300).collect::<String>()}));
     };
     // chain
